@@ -109,14 +109,29 @@ def ref_parse_size(s):
     return (float(Decimal(s[:j])), unit)
 
 
-def ref_print(value, unit):
-    d = Decimal(value).quantize(Decimal('0.01'), rounding=ROUND_HALF_EVEN)
+def _fmt(d, unit):
     s = format(d, 'f')
     if '.' in s:
         s = s.rstrip('0').rstrip('.')
     if s in ('-0', ''):
         s = '0'
     return s + unit
+
+
+def ref_print(value, unit):
+    return _fmt(Decimal(value).quantize(Decimal('0.01'), rounding=ROUND_HALF_EVEN), unit)
+
+
+def ref_prints(value, unit):
+    """The acceptable printings: the nearest two-decimal value; for an exact tie (x.125, x.375 ...) the statement
+    does not fix the direction, both neighbours are two-decimal roundings."""
+    from decimal import ROUND_FLOOR, ROUND_CEILING
+    d = Decimal(value)
+    lo = d.quantize(Decimal('0.01'), rounding=ROUND_FLOOR)
+    hi = d.quantize(Decimal('0.01'), rounding=ROUND_CEILING)
+    if lo != hi and d - lo == hi - d:
+        return {_fmt(lo, unit), _fmt(hi, unit)}
+    return {ref_print(value, unit)}
 
 
 # ------------------------------------------------------------------ generation
@@ -418,14 +433,16 @@ def check(case, ctx):
         return fails
     if k == 'print':
         s = g.Size(case['value'], g.UnitEnum(case['unit']))
-        want = ref_print(case['value'], case['unit'])
+        want = ref_prints(case['value'], case['unit'])
         got = str(s)
         ctx.count('prints_checked')
-        if got != want or s.to_xml_attribute() != want:
-            fails.append({'what': 'printing differs from two-decimal rounding', 'expected': want, 'got': got})
+        if len(want) > 1:
+            ctx.count('prints_of_exact_ties')
+        if got not in want or s.to_xml_attribute() != got:
+            fails.append({'what': 'printing differs from two-decimal rounding', 'expected': sorted(want), 'got': got})
             return fails
         back = g.Size.from_string(got)
-        if str(back) != got or back.unit != s.unit or back.value != round(case['value'], 2):
+        if str(back) != got or back.unit != s.unit or back.value != float(got[:len(got) - len(case['unit'])]):
             fails.append({'what': 're-parsing a printed size does not reproduce it',
                           'printed': got, 'reparsed': [back.value, back.unit.value]})
         return fails
@@ -434,14 +451,10 @@ def check(case, ctx):
         ctx.count('shorthands_checked')
         try:
             p = g.Padding.from_xml_attribute(' '.join(toks))
-        except ValueError as e:
+        except Exception as e:
+            # the statement fixes one to four sizes; how any other arity is refused is open
             if 1 <= len(toks) <= 4:
                 fails.append({'what': 'valid padding shorthand rejected', 'error': repr(e)})
-            return fails
-        except CaptionReadSyntaxError as e:
-            if len(toks) == 0:
-                return fails
-            fails.append({'what': 'valid padding shorthand rejected', 'error': repr(e)})
             return fails
         if not 1 <= len(toks) <= 4:
             fails.append({'what': 'padding shorthand of illegal arity accepted', 'n': len(toks)})
@@ -463,7 +476,7 @@ def check(case, ctx):
                           'expected(before,end,after,start)': [before, end, after, start], 'got': got})
         printed = p.to_xml_attribute()
         want_print = ' '.join(ref_print(*x) for x in (before, end, after, start))
-        if printed != want_print:
+        if printed != want_print and not all(pp in ref_prints(*x) for pp, x in zip(printed.split(' '), (before, end, after, start))):
             fails.append({'what': 'padding prints in the wrong order', 'expected': want_print, 'got': printed})
         return fails
     if k == 'twod':
@@ -475,7 +488,7 @@ def check(case, ctx):
         ctx.count('twod_checked')
         if got != ref:
             fails.append({'what': 'two-dimensional attribute parsed wrongly', 'expected': ref, 'got': got})
-        if o.to_xml_attribute() != ' '.join(ref_print(*x) for x in ref):
+        if not all(pp in ref_prints(*x) for pp, x in zip(o.to_xml_attribute().split(' '), ref)):
             fails.append({'what': 'two-dimensional attribute printed wrongly', 'got': o.to_xml_attribute()})
         return fails
     if k == 'immut':
